@@ -60,6 +60,12 @@ func (e *Encoder) siteAsserts(what, sname string, st *State, pc string, args []V
 
 func (e *Encoder) siteStore(in *ssa.Store, st *State, pc string) {
 	// store <field>#k for stores through a FieldAddr
+	if al, ok := in.Addr.(*ssa.Alloc); ok && al.Comment != "" && al.Heap {
+		// store <var>#k for assignments to a captured / escaping local variable
+		sname := e.siteName("store", al.Comment)
+		e.runSites(sname, st, pc, map[string]Val{"val": e.val(in.Val)})
+		return
+	}
 	fa, ok := in.Addr.(*ssa.FieldAddr)
 	if !ok {
 		return
@@ -107,4 +113,18 @@ func (e *Encoder) atomicEvent(name string, cm *ssa.CallCommon, loc string, ft ty
 type monitorHooks interface {
 	lockEvent(e *Encoder, name string, cm *ssa.CallCommon, args []Val, st *State, pc string)
 	atomicEvent(e *Encoder, name string, cm *ssa.CallCommon, loc string, ft types.Type, args []Val, st *State, pc string)
+}
+
+// fnTypesPkg: the types.Package of a function (instantiations of generic functions have no ssa package).
+func fnTypesPkg(fn *ssa.Function) *types.Package {
+	if fn.Pkg != nil {
+		return fn.Pkg.Pkg
+	}
+	if o := fn.Origin(); o != nil && o.Pkg != nil {
+		return o.Pkg.Pkg
+	}
+	if fn.Object() != nil {
+		return fn.Object().Pkg()
+	}
+	return nil
 }
